@@ -5,7 +5,7 @@ import (
 	"math"
 	"runtime"
 	"sync"
-		"testing"
+	"testing"
 
 	"github.com/deadsy/sdfx/obj"
 	"github.com/deadsy/sdfx/render"
